@@ -52,6 +52,16 @@ func (cache *Cache) evict() {
 	delete(cache.entries, key)
 }
 
+// writeParticipants adds the claimed signer set to a cache key. The signature bytes alone do
+// not identify the signers (the signer labels of a multi-signature and the bitfield of an
+// aggregate are not part of ToBytes), so a signature remembered as valid would otherwise be
+// accepted under any claimed signer set.
+func writeParticipants(key *strings.Builder, signature hotstuff.QuorumSignature) {
+	signature.Participants().ForEach(func(id hotstuff.ID) {
+		_, _ = key.Write(id.ToBytes())
+	})
+}
+
 // Sign signs a message and adds it to the cache for use during verification.
 func (cache *Cache) Sign(message []byte) (sig hotstuff.QuorumSignature, err error) {
 	sig, err = cache.impl.Sign(message)
@@ -60,7 +70,9 @@ func (cache *Cache) Sign(message []byte) (sig hotstuff.QuorumSignature, err erro
 	}
 	var key strings.Builder
 	hash := sha256.Sum256(message)
+	_ = key.WriteByte('V') // same key space as Verify
 	_, _ = key.Write(hash[:])
+	writeParticipants(&key, sig)
 	_, _ = key.Write(sig.ToBytes())
 	cache.insert(key.String())
 	return sig, nil
@@ -68,9 +80,14 @@ func (cache *Cache) Sign(message []byte) (sig hotstuff.QuorumSignature, err erro
 
 // Verify verifies the given quorum signature against the message.
 func (cache *Cache) Verify(signature hotstuff.QuorumSignature, message []byte) error {
+	if signature == nil {
+		return cache.impl.Verify(signature, message)
+	}
 	var key strings.Builder
 	hash := sha256.Sum256(message)
+	_ = key.WriteByte('V') // keeps Verify and BatchVerify keys apart
 	_, _ = key.Write(hash[:])
+	writeParticipants(&key, signature)
 	_, _ = key.Write(signature.ToBytes())
 
 	if cache.check(key.String()) {
@@ -87,18 +104,27 @@ func (cache *Cache) Verify(signature hotstuff.QuorumSignature, message []byte) e
 
 // BatchVerify verifies the given quorum signature against the batch of messages.
 func (cache *Cache) BatchVerify(signature hotstuff.QuorumSignature, batch map[hotstuff.ID][]byte) error {
+	if signature == nil {
+		return cache.impl.BatchVerify(signature, batch)
+	}
 	// sort the list of ids from the batch map
 	ids := slices.Sorted(maps.Keys(batch))
 	var hash hotstuff.Hash
 	hasher := sha256.New()
 	// then hash the messages in sorted order
 	for _, id := range ids {
+		// bind every message to its signer and delimit it, so that two batches with the same
+		// concatenation of messages do not share a key
+		_, _ = hasher.Write(id.ToBytes())
+		_, _ = hasher.Write(hotstuff.View(len(batch[id])).ToBytes())
 		_, _ = hasher.Write(batch[id])
 	}
-	hasher.Sum(hash[:])
+	hasher.Sum(hash[:0]) // Sum appends to its argument
 
 	var key strings.Builder
+	_ = key.WriteByte('B') // keeps Verify and BatchVerify keys apart
 	_, _ = key.Write(hash[:])
+	writeParticipants(&key, signature)
 	_, _ = key.Write(signature.ToBytes())
 
 	if cache.check(key.String()) {
